@@ -52,6 +52,7 @@ def pPOp : P POp := do
   | "A" => do let i ← pNat; let j ← pNat; pure (.copyAssign i j)
   | "X" => do let s ← pNat; pure (.destroy s)
   | "Q" => do let s ← pNat; let op ← pOp; pure (.call s op)
+  | "R" => do let _ ← pNat; let s ← pNat; let t ← pNat; let xo ← pRat; let xn ← pRat; pure (.rebuild s t xo xn)
   | _ => failure
 
 def showAns (a : Ans) (md : String) (sc : Rat) : String :=
@@ -85,6 +86,11 @@ def tracePool (tables : Array (List Rat × List Rat)) (nslots : Nat) (ops : List
     let (md, sc) := match op with
       | .call s q => match pool.getD s none with
         | some o => ((match q.firstAbscissa with | some v => mode o v | none => "-"), scaleOf o q)
+        | none => ("-", 0)
+      | .rebuild _ t _ xn => match tables[t]? with
+        | some (xs, ys) => match mk xs ys (-1) (-1) with
+          | .ok o => (mode o xn, scaleOf o (.interp xn))
+          | .error _ => ("-", 0)
         | none => ("-", 0)
       | _ => ("-", 0)
     match poolStep tables pool op with
